@@ -11,7 +11,7 @@ from ..contexts import AST, Ctx
 from ..contexts.cst import cstmerge
 from ..exceptions import FailedParse, FailedRef
 from ..objectmodel import nodedataclass
-from ..util import indent, trim, typename
+from ..util import indent, typename
 from .base import PEP8_LLEN, Box, Leaf, Model, Rule
 from .math import ffset, kdot, ref
 
@@ -24,7 +24,8 @@ class Group(Box):
     def _pretty(self, lean=False):
         exp = self.exp._pretty(lean=lean)
         if len(exp.splitlines()) <= 1:
-            return f'({trim(exp)})'
+            # NOTE not trim(): it expands a TAB written in a pattern
+            return f'({exp.strip()})'
         return f'(\n{indent(exp)}\n)'
 
     def optimized(self) -> Model:
@@ -46,7 +47,7 @@ class SkipGroup(Box):
     def _pretty(self, lean=False):
         exp = self.exp._pretty(lean=lean)
         if len(exp.splitlines()) <= 1:
-            return f'(?:{trim(exp)})'
+            return f'(?:{exp.strip()})'
         return f'(?:\n{indent(exp)}\n)'
 
 
